@@ -266,6 +266,11 @@ func serveGuards(c *core.Ctx) {
 				}
 			}
 		}
+		// never assigned on this path: the variable still holds its zero value, nil, whether or not the
+		// path tested it
+		if !pi.phSet && !pi.phNil && phVar != nil && s.LastAssigned(info, phVar) == nil {
+			pi.phNil = true
+		}
 		return pi
 	}
 
@@ -427,6 +432,14 @@ func serveGuards(c *core.Ctx) {
 		// the protocol's NewConn re-reads the raw header to pick the codec, so the key that selected
 		// the protocol must be that raw header value, unmodified
 		fromHeader = fromHeader && assignments == 1
+		// the header read used in place as the key is the unmodified value just the same
+		if call, ok := astx.Unparen(lookup.Index).(*ast.CallExpr); ok && len(call.Args) == 1 {
+			if fn := astx.CalleeFunc(info, call); fn != nil && fn.Name() == "Get" && astx.TypeIs(recvType(fn), "net/http", "Header") {
+				if k, ok := astx.ConstString(info, call.Args[0]); ok && strings.EqualFold(k, "Content-Type") {
+					fromHeader = true
+				}
+			}
+		}
 		c.Check(fromHeader, "dispatch/lookup", lookup.Pos(), "protocol selected by exact map lookup of the unmodified request.Header.Get(\"Content-Type\") in handler.ContentTypes() (assignments to the key variable: %d)", assignments)
 	}
 }
